@@ -21,3 +21,12 @@ Definition heap_sigs (s : state3) := map_to_list (sigs s).
 Definition refs_list (m : gmap handle (gset handle)) : list (handle * list handle) :=
   (λ '(h, x), (h, elements x)) <$> map_to_list m.
 Definition builder_list (s : state3) := map_to_list (bus_builder s).
+
+(* layer 2 *)
+From Acme.C04 Require Export Reg.
+Definition map_hn (m : gmap handle name) := map_to_list m.
+Definition names_list (m : gmap handle (gmap name handle)) : list (handle * list (name * handle)) :=
+  (λ '(h, x), (h, map_to_list x)) <$> map_to_list m.
+Definition shape_list (s : state2) := map_to_list (xshape s).
+Definition gids_list (s : state2) : list (handle * list (handle * list Z)) :=
+  (λ '(h, x), (h, map_to_list x)) <$> map_to_list (xgids s).
